@@ -16,20 +16,20 @@ fn add<S: Subject>(jobs: &mut Vec<Box<dyn JobT>>, q: u64, t: u64, ex: &[Class], 
 
 pub fn property() -> Property {
     let mut jobs: Vec<Box<dyn JobT>> = Vec::new();
-    add::<SOrswot>(&mut jobs, 6000, 200_000, &[], 0.03);
-    add::<SMVReg>(&mut jobs, 6000, 200_000, &[], 0.03);
-    add::<MapOrswot>(&mut jobs, 6000, 200_000, &[Class::T1, Class::T3], 0.03);
-    add::<MapMVReg>(&mut jobs, 6000, 200_000, &[Class::T1, Class::T3, Class::T5], 0.015);
-    add::<MapMapMVReg>(&mut jobs, 4000, 100_000, &[Class::T1, Class::T3, Class::T5], 0.03);
-    add::<SGList>(&mut jobs, 3000, 60_000, &[], 0.03);
-    add::<SMerkle>(&mut jobs, 3000, 60_000, &[], 0.03);
-    add::<SVClock>(&mut jobs, 2000, 40_000, &[], 0.03);
-    add::<SGCounter>(&mut jobs, 2000, 40_000, &[], 0.03);
-    add::<SPNCounter>(&mut jobs, 2000, 40_000, &[], 0.03);
-    add::<SGSet>(&mut jobs, 2000, 40_000, &[], 0.03);
-    add::<SLww>(&mut jobs, 2000, 40_000, &[], 0.03);
-    add::<SMax>(&mut jobs, 2000, 40_000, &[], 0.03);
-    add::<SMin>(&mut jobs, 2000, 40_000, &[], 0.03);
+    add::<SOrswot>(&mut jobs, 18000, 200_000, &[], 0.03);
+    add::<SMVReg>(&mut jobs, 18000, 200_000, &[], 0.03);
+    add::<MapOrswot>(&mut jobs, 18000, 200_000, &[Class::T1, Class::T3], 0.03);
+    add::<MapMVReg>(&mut jobs, 18000, 200_000, &[Class::T1, Class::T3, Class::T5], 0.015);
+    add::<MapMapMVReg>(&mut jobs, 12000, 100_000, &[Class::T1, Class::T3, Class::T5], 0.03);
+    add::<SGList>(&mut jobs, 9000, 60_000, &[], 0.03);
+    add::<SMerkle>(&mut jobs, 9000, 60_000, &[], 0.03);
+    add::<SVClock>(&mut jobs, 6000, 40_000, &[], 0.03);
+    add::<SGCounter>(&mut jobs, 6000, 40_000, &[], 0.03);
+    add::<SPNCounter>(&mut jobs, 6000, 40_000, &[], 0.03);
+    add::<SGSet>(&mut jobs, 6000, 40_000, &[], 0.03);
+    add::<SLww>(&mut jobs, 6000, 40_000, &[], 0.03);
+    add::<SMax>(&mut jobs, 6000, 40_000, &[], 0.03);
+    add::<SMin>(&mut jobs, 6000, 40_000, &[], 0.03);
     Property {
         id: "C02",
         rule: "Plans mixing API edits, op deliveries (weakest documented discipline per type, newest-first biased so operands hold pending removes), duplicates, merges, stale-snapshot merges and Probe steps; each Probe picks a triple (a,b,c) among the current replica states and remembered snapshots and checks a+b = b+a, (a+b)+c = a+(b+c), a+a = a on all reads and contexts; at the end every state is gossiped everywhere in a generated order and all replicas must read the same. Non-trivial = a probed triple whose knowledge sets are pairwise different and overlapping, not a no-op, and (for types with removes) containing a remove that observed another replica's update; distinct = distinct Plan hash.".into(),
